@@ -62,6 +62,7 @@ fn constr_data(alt: u64, fields: Vec<PlutusData>) -> PlutusData {
 }
 
 fn main() {
+    vf_pipeline::start_watchdog(45);
     let mut cases = 0u64;
     let p = |k: u32| 1i128 << k;
     for n in [0i128, 1, -1, p(63), -p(63) - 1, p(64) - 1, p(64), -p(64), -p(64) - 1] {
@@ -80,6 +81,7 @@ fn main() {
             ]);
             let store = FixedStore(vec![lovelace_utxo(SENDER, 50_000_000_000, 0)]);
             let mut c = compiler(44, 155381, None);
+            vf_pipeline::begin_case("datum template".to_string());
             let r = pollster::block_on(tx3_resolver::resolve_tx(AnyTir::V1Beta0(tx), &args, &mut c, &store, 10));
             let x = match r { Ok(x) => x, Err(e) => { println!("VERIF-NOTE {input}: did not resolve: {e}"); continue; } };
             let dec: primitives::Tx = match tx3_cardano::pallas::codec::minicbor::decode(&x.payload) {
